@@ -194,7 +194,9 @@ class CFG:
             inner: list[End] = [(head, "n")]
             for g in e.generators:
                 for c in g.ifs:
-                    inner = self._expr(c, inner)
+                    # a filter is a branch: the element expression runs under it (`f(x) for x in xs if isinstance(x, str)`)
+                    inner, skipped = self._cond(c, inner)
+                    self._connect(skipped, head)
             if isinstance(e, ast.DictComp):
                 inner = self._expr(e.key, inner)
                 inner = self._expr(e.value, inner)
